@@ -128,7 +128,8 @@ def d4_run_uids(ctx, rm: REModel):
     for nm in ("__call__", "resume"):
         f = rm.m(nm)
         rets = [s for s in A.walk_stmts(f.node.body) if isinstance(s, ast.Return) and s.value is not None]
-        ok = any(A.norm(r.value) == "tuple(self._run_start_uids)" for r in rets) and any("run_engine_result" in A.norm(r.value) for r in rets)
+        vals = [A.norm(q.expand(f.node, r.value)) for r in rets]  # temporaries substituted
+        ok = any(v == "tuple(self._run_start_uids)" for v in vals) and any(v.startswith("self._create_result(") for v in vals)
         ctx.ob("C13.D4-run-uids", cname(f, None, "returns the uids in order (or the result object)"), ok, "" if ok else "return value changed", where=where(f, f.node))
     cr = rm.m("_create_result")
     c = A.find_calls(cr.node, "RunEngineResult")
